@@ -14,7 +14,7 @@
  * Digest bytes are compared through the ghost index dk (one arbitrary byte of 32), stream bytes through
  * (epoch we, position wpos), key bytes through kk. */
 #define HASH_SPEC_HMAC_CONTRACTS
-#define VERIF_MEMCPY_MODEL      /* exact byte-loop model (n <= 64 is an obligation): generate copies <= 32 bytes into a symbolic-size buffer */
+#define VERIF_MEMCPY_MODEL      /* generate copies <= 32 bytes into a symbolic-size buffer: ghost-watched byte model, see hash_spec.h */
 #include "hash_spec.h"
 #define memcpy verif_memcpy64
 #include "src/secp256k1.c"
@@ -82,7 +82,7 @@ void h_rfc_gen(void) {
     out = malloc(outlen ? outlen : 1); __CPROVER_assume(out != NULL);
     memcpy(rng.k, k0, 32); memcpy(rng.v, v0, 32); rng.retry = retry0;
     hc.fn_sha256_compression = secp256k1_sha256_transform;
-    HMACS_RESET(); g_hwe = we; g_hwpos = wpos; g_hkk = kk; g_hdk = dk; verif_oi = oi; g_mc_base = NULL;
+    HMACS_RESET(); g_hwe = we; g_hwpos = wpos; g_hkk = kk; g_hdk = dk; verif_oi = oi; g_mc_base = NULL; g_mc_big = out; g_mc_big_idx = oi; g_mc_calls = 0;
 
     secp256k1_rfc6979_hmac_sha256_generate(&hc, &rng, out, outlen);
 
